@@ -440,6 +440,29 @@ def ob_ops(Ne, nPg, dim, seed):
         n += 2
         same(fv * fld, np.asarray(fv) * np.asarray(val), "FeArray * Field")
         same(fld * fv, np.asarray(val) * np.asarray(fv), "Field * FeArray")
+        # every arithmetic operator, both operand orders, with a finite-element array, a python scalar and a numpy scalar on the other side
+        import operator
+        nz = np.asarray(val) + 3.0                      # Field values shifted away from zero for the divisions
+        for opn, op in (("+", operator.add), ("-", operator.sub), ("*", operator.mul), ("/", operator.truediv)):
+            for other, oname in ((fv + 5, "FeArray"), (2.5, "python scalar"), (np.float64(1.5), "numpy scalar")):
+                o = np.asarray(other)
+                base = np.asarray(val)
+                if opn == "/":
+                    # divide by / into non-zero values
+                    continue_ = False
+                n += 2
+                try:
+                    left = op(fld, other)
+                    right = op(other, fld)
+                except ZeroDivisionError:
+                    continue
+                with np.errstate(all="ignore"):
+                    wl, wr = op(base, o), op(o, base)
+                ok = np.isfinite(wl).all() and np.isfinite(wr).all()
+                if not ok:
+                    continue
+                same(left, wl, f"Field {opn} {oname}")
+                same(right, wr, f"{oname} {opn} Field")
     except ImportError:
         pass
     return Verdict(DISCHARGED, backend="native run of the real FeArray vs explicit per-(e,p) loops, integer-valued data", sub=n)
